@@ -1,4 +1,65 @@
 ----------------------------- MODULE PtDotFancy -----------------------------
-EXTENDS Integers, Sequences, FiniteSets, TLC
-FancyClause(S, R) == "ok"
+(***************************************************************************)
+(* show_fancy_placeholder_data_flow ("visualizes the data-flow from the    *)
+(* placeholders into outputs") as a picture in the terms of PtDot.         *)
+(*                                                                         *)
+(* Source: S.nodes (children first), every node with a category cat:       *)
+(*   "ph" (placeholder, drawn under its name), "hidden" (data wrappers,    *)
+(*   constant fills: never drawn), "ew", "remap", "einsum" (text = the     *)
+(*   subscript specification), "stackconcat", "adv", "csr"; kids = the     *)
+(*   operand positions; S.outputs = [name, node].                          *)
+(* A node is SHOWN iff it is a placeholder or one of its operands is shown *)
+(* (data flows into it from a placeholder).  The picture: one node per     *)
+(* shown node with the look of its category, one edge per (shown operand,  *)
+(* node) PAIR (the same operand twice is one edge), one node per output    *)
+(* whose array is shown, with an edge from that array.                     *)
+(* Nodes carry no identity here (operations are drawn as bare symbols), so *)
+(* the relation is "same bag of structural classes": sound, and complete   *)
+(* up to renderings that differ only in WHICH of two look-alike operations *)
+(* an edge ends at.                                                        *)
+(***************************************************************************)
+EXTENDS PtDot
+
+Look(cat) ==
+  CASE cat = "ph" -> "lightgrey/ellipse"
+    [] cat = "out" -> "springgreen/ellipse"
+    [] cat \in {"ew", "remap"} -> "coral1/diamond"
+    [] cat = "einsum" -> "crimson/box3d"
+    [] cat = "stackconcat" -> "deepskyblue/folder"
+    [] cat = "adv" -> "darkblue/hexagon"
+    [] cat = "csr" -> "gold/star"
+LookFld(cat) == [u \in {"_", "look"} |-> IF u = "_" THEN "" ELSE Look(cat)]
+
+FancyPicture(S) ==
+  LET N == Len(S.nodes)
+      RECURSIVE shownUpTo(_)
+      shownUpTo(k) == IF k = 0 THEN <<>>
+                      ELSE LET prev == shownUpTo(k - 1)  nd == S.nodes[k] IN
+                           Append(prev, nd.cat = "ph" \/
+                                        (nd.cat # "hidden" /\ \E q \in DOMAIN nd.kids : prev[nd.kids[q]]))
+      shown == TLCEval(shownUpTo(N))
+      pos == TLCEval([k \in 1..N |-> Cardinality({j \in 1..k : shown[j]})])
+      ks == Asc({k \in 1..N : shown[k]})
+      nshown == Len(ks)
+      nodeItems == [j \in DOMAIN ks |->
+                      LET k == ks[j]  nd == S.nodes[k]
+                          srcs == Asc({nd.kids[q] : q \in {z \in DOMAIN nd.kids : shown[nd.kids[z]]}})
+                      IN Item(<<>>, nd.text, LookFld(nd.cat), NoFields, TRUE, 0,
+                              [q \in DOMAIN srcs |-> Edge(pos[srcs[q]], "", "", FALSE)])]
+      outs == SelectSeq(S.outputs, LAMBDA o : shown[o.node])
+      outItems == [j \in DOMAIN outs |->
+                     Item(<<>>, outs[j].name, LookFld("out"), NoFields, TRUE, 0,
+                          <<Edge(pos[outs[j].node], "", "", FALSE)>>)]
+  IN nodeItems \o outItems
+
+\* a rendered edge drawn twice is one edge
+DedupEdges(R) ==
+  [R EXCEPT !.nodes = [r \in DOMAIN R.nodes |->
+     [R.nodes[r] EXCEPT !.kids =
+        LET ts == Asc({R.nodes[r].kids[q].to : q \in DOMAIN R.nodes[r].kids}) IN
+        [q \in DOMAIN ts |-> [to |-> ts[q], lab |-> "", style |-> ""]]]]]
+
+FancyClause(S, R) ==
+  IF R.error # "" THEN R.error
+  ELSE ClauseForP(FancyPicture(S), DedupEdges(R))
 =============================================================================
